@@ -23,6 +23,7 @@
 #include <limits.h>
 #include <math.h>
 #include <stdlib.h>
+#include <stdbool.h>
 #include <string.h>
 #include <float.h>
 
@@ -127,16 +128,18 @@ int32_t jls_wr_ts_open(
 }
 
 static int32_t commit(struct jls_core_ts_s * self, int level, int mode) {
-    if ((level < 1) || (level > JLS_SUMMARY_LEVEL_COUNT)) {
+    if ((level < 1) || (level >= JLS_SUMMARY_LEVEL_COUNT)) {
         JLS_LOGE("invalid level");
         return JLS_ERROR_PARAMETER_INVALID;
     }
     struct jls_index_s * index = self->index[level];
     struct jls_payload_header_s * summary_header = self->summary[level];
+    // the highest level has no level above it: its chunks are written when full and not summarized further
+    bool has_up = (level + 1) < JLS_SUMMARY_LEVEL_COUNT;
 
     if (!index || !summary_header || !index->header.entry_count) {
         return 0;
-    } else if (mode == COMMIT_MODE_NORMAL) {
+    } else if ((mode == COMMIT_MODE_NORMAL) && has_up) {
         ROE(alloc(self, level + 1));
     }
 
@@ -153,8 +156,8 @@ static int32_t commit(struct jls_core_ts_s * self, int level, int mode) {
                           self->track_type, level, p_start, len));
 
     // add to upper level and compute summary write
-    struct jls_index_s * index_up = self->index[level + 1];
-    struct jls_payload_header_s * summary_header_up = self->summary[level + 1];
+    struct jls_index_s * index_up = has_up ? self->index[level + 1] : NULL;
+    struct jls_payload_header_s * summary_header_up = has_up ? self->summary[level + 1] : NULL;
     if (index_up) {
         struct jls_index_entry_s * index_up_entry = &index_up->entries[index_up->header.entry_count++];
         index_up_entry->timestamp = index->entries[0].timestamp;
@@ -164,7 +167,7 @@ static int32_t commit(struct jls_core_ts_s * self, int level, int mode) {
         struct jls_annotation_summary_s * summary = (struct jls_annotation_summary_s *) summary_header;
         p_end = (uint8_t *) &summary->entries[summary->header.entry_count];
         p_start = (uint8_t *) summary;
-        if (mode != COMMIT_MODE_CLOSE) {
+        if ((mode != COMMIT_MODE_CLOSE) && (NULL != summary_header_up)) {
             struct jls_annotation_summary_s *summary_up = (struct jls_annotation_summary_s *) summary_header_up;
             summary_up->entries[summary_up->header.entry_count++] = summary->entries[0];
         }
@@ -172,7 +175,7 @@ static int32_t commit(struct jls_core_ts_s * self, int level, int mode) {
         struct jls_utc_summary_s * summary = (struct jls_utc_summary_s *) summary_header;
         p_end = (uint8_t *) &summary->entries[summary->header.entry_count];
         p_start = (uint8_t *) summary;
-        if (mode != COMMIT_MODE_CLOSE) {
+        if ((mode != COMMIT_MODE_CLOSE) && (NULL != summary_header_up)) {
             struct jls_utc_summary_s *summary_up = (struct jls_utc_summary_s *) summary_header_up;
             summary_up->entries[summary_up->header.entry_count++] = summary->entries[0];
         }
